@@ -18,7 +18,7 @@ RULE = ("A: ALL (version, length) pairs in 0..17 x 0..42 (774, exhaustive) x HRP
         "<= 4 decided offline by set intersections (2 388 085 weight-2 syndromes); D: random <=4-symbol substitutions and an "
         "insert/delete/case/charset grammar through the real decoder, differential against the reference decoder; distinct = "
         "distinct (monitor, case) digests"
-        " EXTENSIONS: + foreign printable characters at every position (B3), characters outside 33..126 affixed / after the separator / before the checksum (B4), prefixes related to the expected one, caller edits of returned lists, full (version x length x constant) grid")
+        " EXTENSIONS: + foreign printable characters at every position (B3), characters outside 33..126 affixed / after the separator / before the checksum (B4), prefixes related to the expected one, caller edits of returned lists, full (version x length x constant) grid, foreign character x compensating neighbour grid (B5)")
 LEVEL_TEXT = ("Codec agreement is exhaustive over (version, length); rejection clauses are exercised by construction; the "
               "error-detection clause is decided for EVERY error pattern of weight <= 4 (both constants and the cross-constant "
               "case) from syndromes computed by the real bech32_polymod, exhaustive given the checksum's affine-linearity, which "
@@ -378,6 +378,46 @@ def judge_D_diff(ctx, case):
     return r
 
 
+def judge_foreign_pairs(ctx, case):
+    import btc_hd_wallet.bech32 as b
+    import btc_hd_wallet.helper as h
+    hrp, form = case["hrp"], case["addr"]
+    sep = form.rfind("1")
+    foreign = [chr(c) for c in range(33, 127) if chr(c).lower() not in rbech.CHARSET]
+    symbols = [c.upper() if case["upper"] else c for c in rbech.CHARSET]
+    tried, accepted = 0, []
+    for pos in range(sep + 1, len(form)):
+        for c in foreign:
+            for npos in (pos - 1, pos + 1):
+                if npos <= sep or npos >= len(form):
+                    continue
+                for sym in symbols:
+                    if sym == form[npos]:
+                        continue
+                    chars = list(form)
+                    chars[pos], chars[npos] = c, sym
+                    t = "".join(chars)
+                    tried += 1
+                    try:
+                        got = b.decode(hrp, t)
+                    except Exception:  # noqa
+                        got = (None, None)
+                    if got != (None, None):
+                        accepted.append((t, got[0]))
+                    elif tried % 997 == 0:
+                        try:
+                            prog = h.bech32_decode_address(t)
+                            if isinstance(prog, (bytes, bytearray)) and len(prog):
+                                accepted.append((t, "helper"))
+                        except Exception:  # noqa
+                            pass
+                    if len(accepted) >= 3:
+                        break
+    ctx.extra["foreign_pair_strings_decoded"] = ctx.extra.get("foreign_pair_strings_decoded", 0) + tried
+    return ctx.judge("D.differential", not accepted, case, "every string refused (a character outside the 32 symbols)", accepted[:3],
+                     cls="diff|foreign-pair-grid|%s" % ("upper" if case["upper"] else "lower"), mech="C11.D.decoder_disagrees.accepted")
+
+
 def gen_valid(rnd):
     hrp = rnd.choice(["bc", "tb"])
     v = rnd.choice([0, 0, 0, 1, 1, 2, 16])
@@ -490,6 +530,17 @@ def run(ctx):
             for c in foreign:
                 c2 = c.upper() if gi & 1 else c
                 judge_D_diff(ctx, {"hrp": hrp, "s": form[:pos] + c2 + form[pos + 1:], "tag": "grid-foreign-%s" % ("checksum" if pos >= len(form) - 6 else "data")})
+    # ---- B5: a foreign printable character at a position TOGETHER WITH any other symbol at the position before or after it
+    #          (a character that carries more than five bits into the checksum arithmetic can be compensated by its neighbour):
+    #          positions x 62 foreign characters x 2 neighbours x 31 symbols per address, none may be accepted
+    for gi in range(4 if not ctx.thorough else 48):
+        n += 1
+        if not ctx.mine(n):
+            continue
+        hrp, v, s_ = gen_valid(rnd)
+        if len(s_) > 74:
+            hrp, v, s_ = "bc", 0, rbech.segwit_encode("bc", 0, gen.rbytes(rnd, 20))
+        judge_foreign_pairs(ctx, {"hrp": hrp, "addr": s_.upper() if gi & 1 else s_, "upper": bool(gi & 1)})
     # ---- B4: characters outside 33..126 (blank, tab, NL, CR, CR+NL, VT, FF, NUL, DEL, the C0 separators, NEL, NBSP, LS/PS,
     #          BOM, ZWSP) appended, prepended, put after the separator and in front of the checksum of valid addresses (both
     #          cases): BIP173 allows none of them anywhere.  (`$` in a regular expression, str.strip(), int() and
@@ -539,9 +590,40 @@ def run(ctx):
             continue
         tag, t = mutate_any(rnd, s)
         judge_D_diff(ctx, {"hrp": hrp, "s": t, "tag": tag})
+    # K+3 distinct requests per harvested threshold K, then a second look at the earliest answers (vpkg.longrun.ask_again)
+    from .. import longrun
+    longrun.histories(ctx, "history", "C11", history_specs(), first_job=2)
+    ctx.extra["harvested_thresholds"] = longrun.thresholds()
+
+
+def history_specs():
+    import btc_hd_wallet.bech32 as b
+    import btc_hd_wallet.helper as h
+    import hashlib as _hl
+
+    def prog(j):
+        return _hl.sha256(b"vp-c11-%d" % j).digest()[:20 if j & 1 else 32]
+
+    def addr(j):
+        return rbech.segwit_encode("bc", 0 if j % 3 else 1, prog(j) if j % 3 else _hl.sha256(b"t%d" % j).digest())
+
+    def dec(a):
+        v, p = b.decode("bc", a)
+        return (v, bytes(p) if p is not None else None)
+    return [
+        ("bech32.decode", dec, lambda j: (addr(j), (0 if j % 3 else 1, prog(j) if j % 3 else _hl.sha256(b"t%d" % j).digest()))),
+        ("bech32.encode", lambda a: b.encode("bc", a[0], a[1]), lambda j: ((0, prog(j)), rbech.segwit_encode("bc", 0, prog(j)))),
+        ("bech32_decode_address", lambda a: bytes(h.bech32_decode_address(a)), lambda j: (rbech.segwit_encode("bc", 0, prog(j)), prog(j))),
+    ]
 
 
 def replay(ctx, monitor, case):
+    if monitor == "history":
+        from .. import longrun
+        for name, fn, make in history_specs():
+            if name == case["function"]:
+                longrun.ask_again(ctx, "history", "C11", name, fn, make, case["n"], case["k"])
+        return
     if monitor.startswith("A."):
         judge_A(ctx, case)
     elif monitor.startswith("B."):
@@ -553,5 +635,7 @@ def replay(ctx, monitor, case):
         judge_D_subst(ctx, case)
     elif monitor == "D.delta_replay":
         judge_delta_replay(ctx, [tuple(p) for p in case["pattern"]])
+    elif "addr" in case and "upper" in case:
+        judge_foreign_pairs(ctx, case)
     else:
         judge_D_diff(ctx, case)
